@@ -1302,6 +1302,9 @@ func runPkg(prop string, cfg *runCfg) error {
 	}
 	defer os.RemoveAll(tmp)
 	res.Rule = "histories of 3-16 calls (images in body/cell/placeholder, 6 header/footer calls x 3 kinds, lists, notes, settings, properties, save+reopen, template rendering between up to 3 documents) starting from New() or from a generated foreign package (arbitrary relationship ids/order, extra parts, media names, header parts with own relationships); every live document is saved at the end; non-trivial = at least 3 successful calls and 2 saves; distinct by hash of the case"
+	if prop == "C01" || prop == "C02" {
+		res.Rule += "; plus a surface stream for the oracle alone (n/6 documents, new or opened foreign packages): 30 exported methods of the document, its tables and paragraphs called reflectively with made-up arguments (texts that need escaping, control characters, invalid UTF-8, directive-like text), then saved"
+	}
 	var coqCases []string
 	shrunk := 0
 	for ci := 0; ci < cfg.n; ci++ {
@@ -1346,6 +1349,9 @@ func runPkg(prop string, cfg *runCfg) error {
 			res.Samples = append(res.Samples, c)
 		}
 	}
+	if prop == "C01" || prop == "C02" {
+		surfaceStream(prop, cfg, res, r.fork(), tmp)
+	}
 	res.DistinctNontrivial = dist.n()
 	res.Shards = writeShards(cfg.out, "pkgcases", "From Coq Require Import ZArith NArith List.\nFrom WZ Require Import Model.Pkg Corr.PkgCorr.", "case", "mismatches", coqCases, 40)
 	if prop == "C10" {
@@ -1354,4 +1360,71 @@ func runPkg(prop string, cfg *runCfg) error {
 	}
 	res.write(cfg.out)
 	return nil
+}
+
+// surfaceStream: the whole exported surface of a document, its tables and its paragraphs, called reflectively with
+// made-up arguments (texts that need escaping, control characters, invalid UTF-8, directive-like text, odd numbers) on
+// new documents and on opened foreign packages; whatever the calls were, a package that is saved must meet the
+// clauses of the property. No model takes part: this stream feeds the oracle only.
+func surfaceStream(prop string, cfg *runCfg, res *Result, r *rng, tmp string) {
+	n := cfg.n / 6
+	perClause := map[string]int{}
+	for i := 0; i < n; i++ {
+		cr := r.fork()
+		var d *document.Document
+		origin := "new"
+		if cr.chance(35) {
+			if od, err := document.OpenFromMemory(io.NopCloser(bytes.NewReader(genForeign(cr).build()))); err == nil && od != nil {
+				d, origin = od, "foreign"
+			}
+		}
+		if d == nil {
+			d = document.New()
+			d.AddParagraph("surface")
+			if t, err := d.AddTable(&document.TableConfig{Rows: 2, Cols: 2, Width: 4000}); err == nil {
+				_ = t.SetCellText(0, 0, "c")
+			}
+		}
+		seed := cr.next()
+		var calls []reflCall
+		var ps []panicRec
+		guard("surface calls", &ps, func() {
+			_, calls = reflCalls(d, seed, tmp, reflOpts{limit: 30, hostile: true})
+		})
+		res.Histogram["surface: documents ("+origin+")"]++
+		res.Histogram["surface: calls"] += len(calls)
+		var b []byte
+		var err error
+		guard("surface save", &ps, func() { b, err = d.ToBytes() })
+		if err != nil || b == nil {
+			res.Histogram["surface: save refused"]++
+			continue
+		}
+		var bad []string
+		v, verr := readPackage(b)
+		if verr != nil {
+			bad = []string{"zip_readable: " + verr.Error()}
+		} else if prop == "C01" {
+			bad = v.checkC01()
+		} else {
+			bad = v.checkC02()
+		}
+		for _, m := range bad {
+			clause := m
+			if k := strings.Index(m, ":"); k > 0 {
+				clause = m[:k]
+			}
+			perClause[clause]++
+			if perClause[clause] > 3 {
+				continue
+			}
+			var names []string
+			for _, c := range calls {
+				if c.ok {
+					names = append(names, c.name)
+				}
+			}
+			res.OracleFailures = append(res.OracleFailures, OracleFailure{Clause: clause, Class: "surface:" + clause, Detail: fmt.Sprintf("surface stream (%s document, seed %d): after the calls %v the saved package fails %s", origin, seed, names, m), CaseID: -1 - i})
+		}
+	}
 }
